@@ -37,6 +37,9 @@ CHECKS = {
  "C11": (True, "model_checking", "hybrid: (engine) stateless model checking of 3-call sequences with/without metadata incl. a call abandoned at every point, deviation bound 1 (2); (seq) exhaustive enumeration of maps and of all short byte strings against a reference protobuf decoder and the real protobuf library",
          "Engine part: every sequence of three unary calls with metadata in {none, 1 entry, 2 entries} and sequences whose first call is abandoned by a canceller thread at every scheduling point (soft and hard cancel; between its metadata packet and its invoke among them) run on the real conn/server pair; handler r must see exactly the map attached to call r. Sequential part: all maps with <=2 (3) entries over 8 strings (empty, 127/128/16384 bytes, binary) round-trip, are read back identically by the independent protobuf decoder and by google.golang.org/protobuf through a dynamic map<string,string> field-1 message and vice versa; Decode on all byte strings <=3 (full alphabet) and <=7 (9) over 9 symbols never panics and never returns a map a protobuf decoder would not.",
          "Deviation bound 1-2; string alphabet and lengths as listed.", "4/C11"),
+ "C09": (True, "model_checking", "exhaustive enumeration: frame sequences x ALL partitions of the byte stream into reads (all compositions for short streams, all single/double cuts + uniform chunks otherwise) x error-delivery variants, against the reference reassembly; buffer capacity read by reflection",
+         "Every sequence of <=3 (thorough: 4) frames over a 16-frame alphabet (ids below/at/above the watermark, kind change, control bits, oversized, padded integers, malformed, truncated) and every run of 6 (5-8) small frames over a 4-frame alphabet, with MaximumBufferSize 4 (1,4,8), is fed to the real drpcwire.Reader under every composition of the byte stream into non-empty reads (streams <=14/16 bytes) or all single (double) cuts and uniform chunk sizes, with the final error delivered after or together with the last data and with zero-length reads interleaved (99 tolerated, 100 = ErrNoProgress); long single/multi-frame packets around 4096-31, 4096, 70000 (4 MiB). Oracle: (packets, first error class) identical for all splits and equal to refwire's reassembly; sum of capacities of the reader's byte slices <= 4*max+32KiB.",
+         "Reference reassembly treats ids as naturals (message id 2^64-1 wrap not generated); an incomplete frame longer than max at end of stream may be reported as oversized or as end of stream.", "4/C09"),
 }
 ALL = ["C%02d" % i for i in range(1, 20)]
 NOT_BUILT_REASON = "check not built yet in this round (planned: see DESIGN.md section 4); not claimed until it exists"
